@@ -29,8 +29,8 @@ func init() {
 	engine.Register(&engine.Check{
 		ID:    "C01",
 		Title: "Programs evaluate to the result ECMAScript 5 prescribes",
-		Rule: "every program of four generator families (A control skeletons, B binding histories, C calls/arguments/constructors, " +
-			"D evaluation order) is enumerated completely within its bound (choice vectors of engine.Explore / full products); each " +
+		Rule: "every program of five generator families (A control skeletons, B binding histories, C calls/arguments/constructors, " +
+			"D evaluation order, E conditionally evaluated statement-head expressions) is enumerated completely within its bound (choice vectors of engine.Explore / full products); each " +
 			"program text is distinct; it is run on otto through Run(string), Compile+Run, ParseFile+Run(*ast.Program), Eval, and a " +
 			"Script compiled on runtime A run on fresh runtimes B and C, and compared with ref/js (global code; eval code for the Eval " +
 			"route): host-call sequence with canonical arguments, completion value, uncaught-exception class. A case is non-trivial " +
@@ -43,6 +43,7 @@ func init() {
 			{Name: "B", Run: runB},
 			{Name: "C", Run: runC},
 			{Name: "Cnew", Run: runCnew},
+			{Name: "E", Run: runE},
 			{Name: "witness", Run: runWitness, Solo: true},
 		},
 		Assumptions: []string{
